@@ -84,13 +84,13 @@ func (fr *Frame) execCall0(st *State, c *ssa.CallCommon, in ssa.Instruction, pos
 	if ci, ok := fr.clos[c.Value]; ok {
 		return fr.callStatic(st, ci.fn, args, ci.bindings, in, pos, sig)
 	}
-	// a call through a function value that is not a known closure: the value must not be nil
-	if fr.parent == nil && u.sortOf(c.Value.Type()) == sInt {
-		u.check(fr, st, "nilfunc", "", not(eq(fv.T, "0")), "call of a nil function value", pos, nil)
-	}
-	// function-valued struct field with a bound contract?
+	// function-valued struct field with a bound contract? (the binding stands for "this field holds that function")
 	if rs, ok := fr.fieldCall(st, c.Value, args, in, pos, sig); ok {
 		return rs
+	}
+	// any other call through a function value that is not a known closure: the value must not be nil
+	if fr.parent == nil && u.sortOf(c.Value.Type()) == sInt {
+		u.check(fr, st, "nilfunc", "", not(eq(fv.T, "0")), "call of a nil function value", pos, nil)
 	}
 	if rs, ok := fr.funcTypeCall(st, c.Value, args, in, pos, sig); ok {
 		return rs
